@@ -169,8 +169,22 @@ func checkLowering(c *Ctx) {
 				}
 				id := fmt.Sprintf("p%d.s%d.o%d", i, si, b2i(opt))
 				srcOf[id] = src
-				nd.Add(map[string]interface{}{"id": id, "N": flat.N, "E": flat.E, "name": s.Name, "root": flat.SRoot[s.Name],
-					"glob": globs[si], "opt": opt, "lines": lines})
+				// self-contained: every goto of the script stays inside it or leaves the file
+				self := true
+				own := map[string]bool{}
+				for _, l := range UserLabels(s.Body) {
+					own[l] = true
+				}
+				walkStmts(s.Body, func(st *Stmt) {
+					if st.K == "cmd" && st.Toks[0] == "goto" && len(st.Toks) == 2 {
+						t := st.Toks[1]
+						if !own[t] && (ul[t] || names[t]) {
+							self = false
+						}
+					}
+				})
+				nd.Add(map[string]interface{}{"id": id, "N": flat.N, "E": flat.E, "ulab": flat.ULab, "sroot": flat.SRoot, "name": s.Name, "root": flat.SRoot[s.Name],
+					"glob": globs[si], "opt": opt, "lines": lines, "selfcontained": self})
 				ncases++
 			}
 		}
@@ -178,6 +192,25 @@ func checkLowering(c *Ctx) {
 	bad, states, ok := flush()
 	if !ok {
 		return
+	}
+	// design level: the model's own output, explored against the reference semantics of the same tables
+	rres, rerr := RunTLC("loweringrefine", TLCJob{Module: "LoweringRefine", Cfg: "LoweringRefine.cfg", Data: map[string][]byte{"lowering.ndjson": nd.Bytes()},
+		Workers: c.Workers, Timeout: 40 * time.Minute, HeapGB: 12})
+	if rerr != nil || !rres.Clean() {
+		c.Fatal("LoweringRefine run failed: %v\n%s", rerr, tail(rres.Output, 4000))
+		return
+	}
+	nref := 0
+	for _, m := range reDiverged.FindAllStringSubmatch(rres.Output, -1) {
+		nref++
+		if nref <= 5 {
+			fmt.Printf("DESIGN the Lowering model's output does not refine PoryLang: %s\n%s\n", m[3], srcOf[m[3]])
+		}
+	}
+	fmt.Printf("lowering-refine: %d product states explored over the model's own outputs, %d divergences\n", rres.Distinct, nref)
+	c.Cov("lowering_refine_states", rres.Distinct)
+	if nref > 0 {
+		c.Fatal("the Lowering model's output does not refine the reference semantics on %d scripts", nref)
 	}
 	n := 0
 	for id := range bad {
